@@ -253,7 +253,12 @@ func (runInfo *runInfoStruct) invokeMultiplyOperator(operator *ast.MultiplyOpera
 				runInfo.rv = nilValue
 				return
 			}
-			runInfo.rv = reflect.ValueOf(strings.Repeat(toString(lhsV), int(count)))
+			if !runInfo.options.Debug {
+				// captures panic of an impossible repeat count
+				defer recoverFunc(runInfo)
+			}
+			repeated := strings.Repeat(toString(lhsV), int(count))
+			runInfo.rv = reflect.ValueOf(repeated)
 			return
 		}
 		if lhsV.Kind() == reflect.Float64 || runInfo.rv.Kind() == reflect.Float64 {
